@@ -42,7 +42,8 @@ for i, pid in enumerate(ids, 1):
     }
     extra['d'] = 'IMPORTANT extra constraint for this round: the change must be DEFENSIVE HARDENING - an added validation, sanity check, limit, clamp, timeout, size cap, retry bound, nil/empty guard, input normalisation (trimming, case folding, deduplication), or a stricter reading of the standard, introduced with the best intentions ("reject obviously bad input early", "never wait for ever", "protect against huge values"). It must leave all ordinary inputs untouched and wrongly reject, alter, truncate or give up on SOME legitimate input / schedule the property quantifies over.'
     extra['t'] = 'IMPORTANT extra constraint for this round: the change must be a TYPE, WIDTH, SIGNEDNESS or UNIT change - an int that becomes uint or the reverse, int64/uint64 narrowed to int32/uint32/uint16 (or a conversion through a narrower or a floating-point type on the way), a field or constant whose unit changes (milliseconds vs seconds vs time.Duration, bits vs bytes, metres vs millimetres, cycles vs metres), float32 instead of float64, integer division where a fraction mattered, a shift count or mask computed in the wrong width, len() of a string vs of its runes. It must compile without warnings and be exact for the everyday range of values, and wrong for some values the property quantifies over.'
-    extra['n'], extra['q'] = extra['m'], extra['p']  # second batches of the same flavours
+    extra['n'], extra['q'] = extra['m'], extra['p']
+    extra['u'], extra['v'] = extra['d'], extra['t']  # second batches of the same flavours
     if tag[0] in extra:
         text = text.replace('Prefer changes that keep the overall structure of the code (same functions, same if-statements) where that is possible.', extra[tag[0]])
     if tag[0] == 'g':
